@@ -27,79 +27,97 @@ func entTerm(k, v []byte, m uint8, x uint64) string {
 	return fmt.Sprintf("(%s, %s, %d, %d)", hx(k), hx(v), m, x)
 }
 
-// readAll opens table fid of dir with a fresh environment and collects every entry that
-// Search (for each original key) and a forward iteration deliver.
-func sstRead(dir string, fid uint64, keys [][]byte) (kind string, ents []string, nerr int) {
+// sstRead opens table fid of dir with a fresh environment, Searches every built key and
+// iterates the table forward. perKey[i] is "(KFound <entry>)", "KNotFound" or "KErr".
+func sstRead(dir string, fid uint64, blockSize int, keys [][]byte) (kind string, perKey []string, iter []string, blockErr bool) {
 	defer func() {
 		if r := recover(); r != nil {
 			kind = "panic"
 		}
 	}()
-	env := lsm.VerifNewTableEnv(dir, 64, 0.01)
+	env := lsm.VerifNewTableEnv(dir, blockSize, 0.01)
 	defer env.Close()
 	st, err := env.VerifOpenTable(fid)
 	if err != nil {
 		if strings.HasPrefix(err.Error(), "panic:") {
-			return "panic", nil, 0
+			return "panic", nil, nil, false
 		}
-		return "openerr", nil, 0
+		return "openerr", nil, nil, false
 	}
 	defer st.CloseKeep()
-	seen := map[string]bool{}
-	add := func(e lsm.VerifEntry) {
-		t := entTerm(e.Key, e.Value, e.Meta, e.ExpiresAt)
-		if !seen[t] {
-			seen[t] = true
-			ents = append(ents, t)
-		}
-	}
 	for _, k := range keys {
 		e, found, _, err := st.Search(k, 0)
-		if err != nil {
-			if strings.HasPrefix(err.Error(), "panic:") {
-				return "panic", ents, nerr
-			}
-			nerr++
-			continue
-		}
-		if found {
-			add(e)
+		switch {
+		case err != nil && strings.HasPrefix(err.Error(), "panic:"):
+			return "panic", nil, nil, false
+		case err != nil:
+			perKey = append(perKey, "KErr")
+		case found:
+			perKey = append(perKey, "(KFound "+entTerm(e.Key, e.Value, e.Meta, e.ExpiresAt)+")")
+		default:
+			perKey = append(perKey, "KNotFound")
 		}
 	}
 	for _, e := range st.Iterate(true) {
-		add(e)
+		iter = append(iter, entTerm(e.Key, e.Value, e.Meta, e.ExpiresAt))
 	}
-	return "read", ents, nerr
+	if _, err := st.Blocks(); err != nil {
+		if strings.HasPrefix(err.Error(), "panic:") {
+			return "panic", nil, nil, false
+		}
+		blockErr = true
+	}
+	return "read", perKey, iter, blockErr
 }
+
+// table shapes: (block size, number of entries, key format, value length): blocks of 1, 2, 3 and 4+ entries
+var sstShapes = []struct {
+	block, n, vlen int
+}{{120, 9, 8}, {64, 5, 6}, {200, 11, 5}, {90, 6, 9}, {160, 7, 12}, {48, 4, 3}}
 
 func sstFlipCases(c *corr.Ctx, root string) error {
 	nt := c.Scale(1, 12)
 	for i := 0; i < nt; i++ {
+		sh := sstShapes[i%len(sstShapes)]
 		dir, err := os.MkdirTemp(root, "sst")
 		if err != nil {
 			return err
 		}
 		var ents []lsm.VerifEntry
 		var keys [][]byte
-		n := 4 + c.Rng.Intn(3)
-		for j := 0; j < n; j++ {
-			uk := []byte(fmt.Sprintf("k%02d", j*2))
-			k := kv.InternalKey(kv.CFDefault, uk, uint64(5+c.Rng.Intn(3)))
-			v := bytes.Repeat([]byte{byte('a' + j)}, 3+c.Rng.Intn(12))
-			// value struct encoding is what a table stores
-			vs := kv.ValueStruct{Meta: byte(c.Rng.Intn(2)), Value: v, ExpiresAt: 0}
-			buf := make([]byte, vs.EncodedSize())
-			vs.EncodeValue(buf)
-			ents = append(ents, lsm.VerifEntry{Key: k, Value: v, Meta: vs.Meta})
+		var built []string
+		for j := 0; j < sh.n; j++ {
+			uk := []byte(fmt.Sprintf("key-%02d", j))
+			k := kv.KeyWithTs(uk, uint64(1+c.Rng.Intn(3)))
+			if i%2 == 1 {
+				k = kv.InternalKey(kv.CFDefault, uk, uint64(5+c.Rng.Intn(3)))
+			}
+			v := bytes.Repeat([]byte{byte('a' + j)}, sh.vlen)
+			copy(v, fmt.Sprintf("v%02d", j))
+			e := lsm.VerifEntry{Key: k, Value: v, Meta: byte(c.Rng.Intn(2))}
+			ents = append(ents, e)
 			keys = append(keys, k)
+			built = append(built, entTerm(e.Key, e.Value, e.Meta, e.ExpiresAt))
 		}
-		env := lsm.VerifNewTableEnv(dir, 64, 0.01)
+		env := lsm.VerifNewTableEnv(dir, sh.block, 0.01)
 		st, err := env.VerifBuildTable(1, ents)
 		if err != nil {
 			return err
 		}
-		base, _, _ := func() (string, []string, int) { return "", nil, 0 }()
-		_ = base
+		blocks, err := st.Blocks()
+		if err != nil {
+			return err
+		}
+		var blockOf []int
+		for bi, b := range blocks {
+			c.Count(fmt.Sprintf("sst_block_with_%d_entries", b.Entries))
+			for k := 0; k < b.Entries; k++ {
+				blockOf = append(blockOf, bi)
+			}
+		}
+		if len(blockOf) != len(built) {
+			return fmt.Errorf("sst: block index covers %d entries, built %d", len(blockOf), len(built))
+		}
 		if err := st.CloseKeep(); err != nil {
 			return err
 		}
@@ -109,30 +127,49 @@ func sstFlipCases(c *corr.Ctx, root string) error {
 		if err != nil {
 			return err
 		}
-		// what the uncorrupted table delivers (reference set)
-		kind, ref, _ := sstRead(dir, 1, keys)
-		if kind != "read" {
-			return fmt.Errorf("sst: clean table unreadable: %s", kind)
+		// the intact table must serve exactly what was built
+		kind, perKey, iter, berr := sstRead(dir, 1, sh.block, keys)
+		if kind != "read" || len(iter) != len(built) || berr {
+			return fmt.Errorf("sst: intact table unreadable: %s (%d of %d entries)", kind, len(iter), len(built))
 		}
-		refTerm := corr.List(ref)
+		for j := range built {
+			if perKey[j] != "(KFound "+built[j]+")" || iter[j] != built[j] {
+				return fmt.Errorf("sst: intact table does not serve built entry %d: %s / %s vs %s", j, perKey[j], iter[j], built[j])
+			}
+		}
+		bt := make([]string, len(built))
+		for j := range built {
+			bt[j] = fmt.Sprintf("(%s, %d)", built[j], blockOf[j])
+		}
+		builtTerm := corr.List(bt)
 		c.CountN("sst_file_bytes", len(orig))
 		for bit := 0; bit < len(orig)*8; bit++ {
 			if err := os.WriteFile(path, flip(orig, bit), 0o644); err != nil {
 				return err
 			}
-			kind, got, nerr := sstRead(dir, 1, keys)
+			kind, perKey, iter, berr := sstRead(dir, 1, sh.block, keys)
 			c.Count("sst_" + kind)
 			obs := "TOpenErr"
 			switch kind {
 			case "panic":
 				obs = "TPanic"
 			case "read":
-				obs = fmt.Sprintf("(TRead %s %d)", corr.List(got), nerr)
-				if len(got) < len(ref) {
-					c.Count("sst_read_fewer_entries")
+				obs = fmt.Sprintf("(TRead %s %s %s)", corr.List(perKey), corr.List(iter), corr.Bool(berr))
+				if berr {
+					c.Count("sst_block_error_reported")
+				}
+				for _, pk := range perKey {
+					switch {
+					case pk == "KErr":
+						c.Count("sst_key_error")
+					case pk == "KNotFound":
+						c.Count("sst_key_notfound")
+					default:
+						c.Count("sst_key_found")
+					}
 				}
 			}
-			term := fmt.Sprintf("Ct %s %d %s", refTerm, bit, obs)
+			term := fmt.Sprintf("Ct %s %d %s", builtTerm, bit, obs)
 			c.Emit(corr.Case{Coq: term, Nontrivial: true, Desc: crDesc{Kind: "sst", Orig: hex.EncodeToString(orig), Bit: bit}})
 		}
 		os.RemoveAll(dir)
